@@ -1,4 +1,8 @@
 import CssVerif.Lemmas.Encutils
+import CssVerif.Lemmas.EncutilsDoc
+import CssVerif.Lemmas.EncutilsXml
+import CssVerif.Lemmas.EncutilsXmlReader
+import CssVerif.Lemmas.EncutilsTry
 /-!
 # C20 — encutils reports the document encoding by the documented precedence
 
@@ -329,6 +333,18 @@ theorem sniff_short_raises (fp : Stream) (incl : Bool) (hl : fp.content.length <
     (detectXMLStream fp incl).out = .error .valueError := by
   rw [detectXMLStream_short fp incl hl]
 
+/-- the guard of `sniff_total_partial` is exact: the sniffer returns iff the document has at least four characters -/
+theorem sniff_returns_iff (fp : Stream) (incl : Bool) :
+    (∃ r, (detectXMLStream fp incl).out = .ok r) ↔ 4 ≤ fp.content.length := by
+  constructor
+  · rintro ⟨r, hr⟩
+    by_cases hl : fp.content.length < 4
+    · rw [sniff_short_raises fp incl hl] at hr; cases hr
+    · omega
+  · intro hl
+    obtain ⟨r, hr, _⟩ := sniff_total_partial fp incl hl
+    exact ⟨r, hr⟩
+
 /-! ### what "the declared encoding" is for the pattern (`xmlDeclPattern`, matched on the first 2048 characters) -/
 
 /-- T20.4 the declaration pattern, characterised exactly (sound and complete, for every text): it returns `e` iff
@@ -428,6 +444,88 @@ theorem sniff_no_encoding_declared (rest : Cps) (incl : Bool) :
     rw [declMatch_spec]; rfl
   rw [hcons, xml_sniff_spec, hbom, ← hcons, take_append_le _ rest 2048 (by decide), hn]
 
+/-! ### the strict XML 1.0 reading (`XMLDecl`, productions [23]–[26], [32], [80], [81]; `Lemmas/EncutilsXml.lean`)
+
+The pattern of the code is laxer than XML 1.0 (`decl_iff`); on every declaration that XML 1.0 allows it reads what
+XML 1.0 says. -/
+
+/-- T20.4 strict, with EncodingDecl: a document that starts with an XML 1.0 declaration whose EncName is `e`
+(any legal white space, either quote kind, VersionNum `1.`digits, optional `standalone`, optional `S` before `?>`)
+that ends within the first 2048 characters is sniffed as `lower e`, whatever follows -/
+theorem strict_declaration_read (d e rest : Cps) (incl : Bool) (hd : XMLDecl d (some e)) (hfit : d.length ≤ 2048) :
+    detectXML (d ++ rest) incl = .ok (some (lower e)) := by
+  obtain ⟨vi, ed, sd, s, rfl, ⟨v, s1, x1, x2, q, rfl, hs1, n1, hx1, hx2, hq, hv⟩,
+    ⟨s2, y1, y2, q', rfl, hs2, n2, hy1, hy2, hq', he⟩, hsd, hs⟩ := hd
+  have hform : cps "<?xml" ++ (s1 ++ cps "version" ++ x1 ++ cps "=" ++ x2 ++ [q] ++ v ++ [q]) ++
+      (s2 ++ cps "encoding" ++ y1 ++ cps "=" ++ y2 ++ [q'] ++ e ++ [q']) ++ sd ++ s ++ cps "?>" =
+      cps "<?xml" ++ s1 ++ cps "version" ++ x1 ++ cps "=" ++ x2 ++ [q] ++ v ++ [q] ++ s2 ++
+        cps "encoding" ++ y1 ++ cps "=" ++ y2 ++ [q'] ++ e ++ [q'] ++ (sd ++ s) ++ cps "?>" := by
+    simp only [List.append_assoc]
+  rw [hform] at hfit ⊢
+  exact sniff_declared s1 x1 x2 q v q s2 y1 y2 q' e q' (sd ++ s) rest incl (allWs_of_xmlS hs1) n1 (allWs_of_xmlS hx1)
+    (allWs_of_xmlS hx2) hq (noQuote_of_versionNum hv) hq (allWs_of_xmlS hs2) n2 (allWs_of_xmlS hy1) (allWs_of_xmlS hy2)
+    hq' (noQuote_of_encName he).2 (noQuote_of_encName he).1 hq' (noEnd_tail hsd hs) hfit
+
+/-- T20.4 strict, without EncodingDecl: a document that starts with an XML 1.0 declaration that declares no encoding
+is UTF-8 (nothing, for `includeDefault=False`), whatever follows — also an `encoding="…"` further on -/
+theorem strict_declaration_no_encoding (d rest : Cps) (incl : Bool) (hd : XMLDecl d none) (hfit : d.length ≤ 2048) :
+    detectXML (d ++ rest) incl = .ok (if incl then some (cps "utf-8") else none) := by
+  obtain ⟨t, hdt⟩ := xmlDecl_head d none hd
+  have hbom : specBom 60 63 120 109 = none := by decide
+  have hcons : d ++ rest = 60 :: 63 :: 120 :: 109 :: (t ++ rest) := by rw [hdt]; rfl
+  rw [hcons, xml_sniff_spec, hbom, ← hcons, take_append_le d rest 2048 hfit, declMatch_strict_none d _ hd]
+
+/-- non-vacuity: declarations in the strict grammar (tests) -/
+example : XMLDecl (cps "<?xml version=\"1.0\" encoding='UTF-8' standalone=\"yes\" ?>") (some (cps "UTF-8")) :=
+  ⟨cps " version=\"1.0\"", cps " encoding='UTF-8'", cps " standalone=\"yes\"", cps " ", by decide,
+    ⟨cps "1.0", cps " ", [], [], 34, by decide, by decide, by decide, by decide, by decide, Or.inl rfl,
+      ⟨cps "0", by decide, by decide, by decide⟩⟩,
+    ⟨cps " ", [], [], 39, by decide, by decide, by decide, by decide, by decide, Or.inr rfl,
+      ⟨85, cps "TF-8", by decide, by decide, by decide⟩⟩,
+    Or.inr ⟨cps "yes", cps " ", [], [], 34, by decide, by decide, by decide, by decide, by decide, Or.inl rfl, Or.inl rfl⟩,
+    by decide⟩
+example : XMLDecl (cps "<?xml\nversion = '1.1'?>") none :=
+  ⟨cps "\nversion = '1.1'", [], [], [], by decide,
+    ⟨cps "1.1", cps "\n", cps " ", cps " ", 39, by decide, by decide, by decide, by decide, by decide, Or.inr rfl,
+      ⟨cps "1", by decide, by decide, by decide⟩⟩, rfl, Or.inl rfl, by decide⟩
+
+/-- the executable strict reader (`parseXmlDecl`, run by the driver and compared with the oracle's independent strict
+parser on generated documents) accepts only declarations of the grammar, with that EncName -/
+theorem strict_reader_sound (buf : Cps) (enc : Option Cps) (rest : Cps) (h : parseXmlDecl buf = some (enc, rest)) :
+    ∃ d, buf = d ++ rest ∧ XMLDecl d enc := parseXmlDecl_sound buf enc rest h
+
+/-- … and every declaration of the grammar, followed by anything, is read back: the reader decides the grammar -/
+theorem strict_reader_complete (d : Cps) (enc : Option Cps) (rest : Cps) (hd : XMLDecl d enc) :
+    parseXmlDecl (d ++ rest) = some (enc, rest) := parseXmlDecl_complete d enc rest hd
+
+/-- the strict reading in one statement: the reader answers `(enc, rest)` exactly when the text is a declaration of
+the XML 1.0 grammar with that EncName followed by `rest` -/
+theorem strict_reader_iff (buf : Cps) (enc : Option Cps) (rest : Cps) :
+    parseXmlDecl buf = some (enc, rest) ↔ ∃ d, buf = d ++ rest ∧ XMLDecl d enc :=
+  ⟨parseXmlDecl_sound buf enc rest, fun ⟨d, hb, hd⟩ => hb ▸ parseXmlDecl_complete d enc rest hd⟩
+
+/-- whatever the strict reader accepts within the window, the sniffer of the code reads the same way -/
+theorem strict_reader_agrees (buf : Cps) (enc : Option Cps) (rest : Cps) (incl : Bool)
+    (h : parseXmlDecl buf = some (enc, rest)) (hfit : buf.length - rest.length ≤ 2048) :
+    detectXML buf incl = .ok (match enc with
+      | some e => some (lower e)
+      | none => if incl then some (cps "utf-8") else none) := by
+  obtain ⟨d, rfl, hd⟩ := parseXmlDecl_sound buf enc rest h
+  have hl : d.length ≤ 2048 := by simpa using hfit
+  cases enc with
+  | some e => exact strict_declaration_read d e rest incl hd hl
+  | none => exact strict_declaration_no_encoding d rest incl hd hl
+
+example : parseXmlDecl (cps "<?xml version='1.0' encoding=\"Latin-1\"?><a/>") = some (some (cps "Latin-1"), cps "<a/>") := by
+  decide
+example : parseXmlDecl (cps "<?xml version=\"1.0\" standalone='no' ?>x") = some (none, cps "x") := by decide
+example : parseXmlDecl (cps "<?xml version=\"1.0\" encoding=\"a'?>") = none := by decide
+
+/-- the pattern of the code accepts more than XML 1.0 (tests): a version that is no VersionNum and an encoding that is
+no EncName are read by the pattern, not by the strict reader — the property is silent there, the oracle too -/
+example : declMatch (cps "<?xml version=\"x\" encoding=\"a b\"?>") = some (cps "a b") ∧
+    parseXmlDecl (cps "<?xml version=\"x\" encoding=\"a b\"?>") = none := by decide
+
 /-- the two former declaration findings at their witnesses, now the right way round (tests): a legal declaration that
 continues on the next line is found; an element attribute after a declaration without encoding is ignored; another
 processing instruction whose target starts with `xml` is not a declaration -/
@@ -441,6 +539,289 @@ theorem decl_stray_attribute_ignored :
     detectXML (cps "<?xml version=\"1.0\"?><x encoding=\"ascii\"/><?pi ?>") true = .ok (some (cps "utf-8")) ∧
     detectXML (cps "<?xml-stylesheet href=\"a\" encoding=\"pi\"?>") true = .ok (some (cps "utf-8")) := by
   decide
+
+/-- `str(info)` (what `print(info)` shows) is the reported encoding, or the empty string when there is none -/
+theorem str_spec (i : Info) :
+    i.str = match i.encoding with
+      | some (c :: t) => c :: t
+      | _ => [] := by
+  unfold Info.str
+  cases h : i.encoding with
+  | none => simp [truthy]
+  | some e => cases e <;> simp [truthy]
+
+/-! ## the fallback `tryEncodings` (`:445-497`), when chardet is not installed
+
+Not reachable from `getEncodingInfo` (`tryEncodings_unreachable`), but a public function of the module. -/
+
+/-- for every `bytes` text the trial loop answers: ascii if every byte is ASCII; else windows-1252 if the bytes are
+valid windows-1252 and contain the Euro sign (0x80); else iso-8859-1 — whatever UTF-8 validity says (the `utf-8`
+entry of the tuple is dead: iso-8859-1 decodes everything) -/
+theorem tryEncodings_spec (utf8ok : Bool) (b : List UInt8) : tryEncodings utf8ok b = some (some (specTry b)) :=
+  tryEncodings_eq utf8ok b
+
+/-- it never answers `None` and never `utf-8` -/
+theorem tryEncodings_never_utf8 (utf8ok : Bool) (b : List UInt8) :
+    ∃ e, tryEncodings utf8ok b = some (some e) ∧ e ≠ cps "utf-8" := by
+  refine ⟨specTry b, tryEncodings_eq utf8ok b, ?_⟩
+  unfold specTry
+  split
+  · decide
+  · split <;> decide
+
+/-! ## T20.5 — the document given as text or as bytes
+
+`Model/EncutilsDoc.lean` keeps `str` and `bytes` documents apart (`Doc`) and writes the `isinstance(x, bytes)` guard
+of each of the three consumers (`_getTextType`, `getMetaInfo`, `detectXMLEncoding`). The library stages that are not
+modelled (`L : Lib`: `html.parser`, `email.message.Message`) are arbitrary functions of what the code hands them. -/
+
+/-- the second layer is the first one on the decoded document: every theorem of T20.1–T20.4 above speaks about
+`str` and `bytes` documents alike, with the meta stage computed from what `html.parser` reports (T20.6) -/
+theorem doc_layer_spec (L : Lib) (r : Option RespD) (text : Option Doc) (t : Option Cps) :
+    getEncodingInfoD L r text t =
+      getEncodingInfo (r.map RespD.head) (text.map Doc.asText)
+        (metaRawOf L (match effDoc r text with | .ok d => d.asText | .error _ => [])) t :=
+  getEncodingInfoD_eq L r text t
+
+/-- T20.1 on documents: the documented first-match table for a `str` or `bytes` document (or one read from the
+response), with the meta stage inside — `encoding_spec` carried over by `doc_layer_spec` -/
+theorem encoding_spec_doc (L : Lib) (r : Option RespD) (text : Option Doc) (t : Option Cps) (i : Info)
+    (h : getEncodingInfoD L r text t = .ok i) :
+    ∃ d, effDoc r text = .ok d ∧
+      i.encoding =
+        if truthy i.httpEncoding = true then i.httpEncoding else
+          match docClass (r.map RespD.head) d.asText with
+          | .appXml => i.xmlEncoding
+          | .html => if truthy i.metaEncoding = true then i.metaEncoding else some (cps "iso-8859-1")
+          | .textXml => some (cps "ascii")
+          | .text => some (cps "iso-8859-1")
+          | .css => some (cps "utf-8")
+          | .other => i.httpEncoding := by
+  rw [getEncodingInfoD_eq] at h
+  obtain ⟨txt, h1, hE⟩ := encoding_spec _ _ _ _ i h
+  cases text with
+  | some d =>
+    simp only [effText, Option.map_some, Except.ok.injEq] at h1; subst h1
+    exact ⟨d, rfl, hE⟩
+  | none =>
+    cases r with
+    | none => simp [effText] at h1
+    | some rr =>
+      obtain ⟨mt, cs, body⟩ := rr
+      refine ⟨body.getD (.text []), rfl, ?_⟩
+      have : txt = (body.getD (.text [])).asText := by
+        cases body <;> (simp [effText, RespD.head] at h1; rw [← h1]; rfl)
+      subst this
+      exact hE
+
+/-- T20.2 on documents -/
+theorem mismatch_iff_doc (L : Lib) (r : Option RespD) (text : Option Doc) (t : Option Cps) (i : Info)
+    (h : getEncodingInfoD L r text t = .ok i) :
+    i.mismatch = true ↔
+      (truthy i.httpEncoding = true ∧ truthy i.xmlEncoding = true ∧ i.httpEncoding ≠ i.xmlEncoding) ∨
+      (truthy i.httpEncoding = true ∧ truthy i.metaEncoding = true ∧ i.httpEncoding ≠ i.metaEncoding) ∨
+      (truthy i.xmlEncoding = true ∧ truthy i.metaEncoding = true ∧ i.xmlEncoding ≠ i.metaEncoding) := by
+  rw [getEncodingInfoD_eq] at h
+  exact mismatch_iff _ _ _ _ i h
+
+/-- T20.5 `text_or_bytes`: a `bytes` document and the `str` document with the same values (its latin-1 decoding)
+get the same `EncodingInfo` — every field, the exception included — for every response, every behaviour of the
+library stages and every `tryEncodings` answer. No guard. -/
+theorem text_or_bytes (L : Lib) (r : Option RespD) (b : List UInt8) (t : Option Cps) :
+    getEncodingInfoD L r (some (.bytes b)) t = getEncodingInfoD L r (some (.text (latin1 b))) t := by
+  rw [getEncodingInfoD_eq, getEncodingInfoD_eq]; rfl
+
+/-- the same for a document that is read from the response (`text=None`): `read()` handing out `bytes` or `str` -/
+theorem text_or_bytes_body (L : Lib) (mt cs : Option Cps) (b : List UInt8) (t : Option Cps) :
+    getEncodingInfoD L (some ⟨mt, cs, some (.bytes b)⟩) none t =
+      getEncodingInfoD L (some ⟨mt, cs, some (.text (latin1 b))⟩) none t := by
+  rw [getEncodingInfoD_eq, getEncodingInfoD_eq]; rfl
+
+/-- read the other way round: a text below U+0100 and its latin-1 encoding -/
+theorem text_or_latin1_bytes (L : Lib) (r : Option RespD) (s : Cps) (t : Option Cps) (h : ∀ c ∈ s, c < 256) :
+    getEncodingInfoD L r (some (.bytes (latin1Enc s))) t = getEncodingInfoD L r (some (.text s)) t := by
+  rw [text_or_bytes, latin1_latin1Enc s h]
+
+example : (∀ c ∈ cps "<?xml version='1.0' encoding='É'?>", c < 256) := by decide
+
+/-- the three consumers one by one -/
+theorem consumers_text_or_bytes (L : Lib) (b : List UInt8) (incl : Bool) :
+    textTypeOfDoc (.bytes b) = textTypeOfDoc (.text (latin1 b)) ∧
+    detectXMLDoc (.bytes b) incl = detectXMLDoc (.text (latin1 b)) incl ∧
+    getMetaInfoDoc L (.bytes b) = getMetaInfoDoc L (.text (latin1 b)) := ⟨rfl, rfl, rfl⟩
+
+/-- the codec named at each of the five `isinstance(x, bytes)` guards of the source is latin-1 (regenerated table) -/
+theorem bytes_guards_latin1 : C20.decodeCodecs.length = 5 ∧ ∀ c ∈ C20.decodeCodecs, c = cps "latin-1" :=
+  ⟨by decide, decodeCodecs_latin1⟩
+
+/-- the XML sniffer looks at the first 2048 characters only: two documents that agree there are sniffed alike
+(also when it raises) -/
+theorem sniff_window (t u : Cps) (incl : Bool) (h : t.take 2048 = u.take 2048) :
+    detectXML t incl = detectXML u incl := detectXML_window t u incl h
+
+/-- bytes in ANY ASCII-transparent encoding (UTF-8, latin-1, …; `AsciiTransparent`): an all-ASCII document gets the
+same `EncodingInfo` as its text, for every media type (the meta stage included) -/
+theorem ascii_document_any_encoding (enc : Cps → List UInt8) (henc : AsciiTransparent enc) (L : Lib)
+    (r : Option RespD) (a : Cps) (t : Option Cps) (ha : IsAscii a) :
+    getEncodingInfoD L r (some (.bytes (enc a))) t = getEncodingInfoD L r (some (.text a)) t := by
+  have h : latin1 (enc a) = a := by
+    have := henc.prefix_kept a [] ha
+    simpa [henc.empty, latin1] using this
+  rw [text_or_bytes, h]
+
+/-- … and a document whose first 2048 characters are ASCII (what follows is arbitrary, so the bytes differ from the
+text's values) gets the same `EncodingInfo` whenever the meta stage is not consulted (every class except text/html and
+other text). For text/html and other text the answer depends on what `html.parser` makes of the differing tails,
+which is an input here: no statement. -/
+theorem ascii_head_any_encoding (enc : Cps → List UInt8) (henc : AsciiTransparent enc) (L : Lib)
+    (r : Option RespD) (a rest : Cps) (t : Option Cps) (ha : IsAscii a) (hl : 2048 ≤ a.length)
+    (hh : docClass (r.map RespD.head) (a ++ rest) ≠ .html) (ht : docClass (r.map RespD.head) (a ++ rest) ≠ .text) :
+    getEncodingInfoD L r (some (.bytes (enc (a ++ rest)))) t = getEncodingInfoD L r (some (.text (a ++ rest))) t := by
+  rw [text_or_bytes, henc.prefix_kept a rest ha, getEncodingInfoD_eq, getEncodingInfoD_eq]
+  exact (getEncodingInfo_window _ _ _ _ _ _ (take_of_prefix a rest _ 2048 hl) hh ht).symm
+
+/-- non-vacuity: UTF-8 and latin-1 are ASCII-transparent; an ASCII head of 2048 characters exists -/
+example : AsciiTransparent utf8 := utf8_transparent
+example : AsciiTransparent latin1Enc := latin1Enc_transparent
+example : IsAscii (List.replicate 2048 32) ∧ 2048 ≤ (List.replicate 2048 32).length := by
+  refine ⟨fun c hc => ?_, by rw [List.length_replicate]; exact Nat.le_refl _⟩
+  rw [List.eq_of_mem_replicate hc]; decide
+/-- the hypothesis on the head cannot be dropped (test): `é` in the declared name, UTF-8 bytes vs text -/
+example : detectXMLDoc (.bytes (utf8 (cps "<?xml version='1.0' encoding='é'?>"))) true ≠
+    detectXMLDoc (.text (cps "<?xml version='1.0' encoding='é'?>")) true := by decide
+
+/-- totality of `getEncodingInfo`, for `str` and `bytes` documents alike: it returns an `EncodingInfo` whenever there
+is a document or a response to read one from, provided the two library stages do not raise on what the code hands
+them (`html.parser` on the decoded document, `Message` on the content of the deciding `<meta>`). In particular the
+short documents of finding C20-xml-short do not make it raise (the `ValueError` is caught), and nothing in the code of
+the module itself raises. -/
+theorem info_total (L : Lib) (r : Option RespD) (text : Option Doc) (t : Option Cps)
+    (hgiven : text ≠ none ∨ r ≠ none)
+    (hhtml : ∀ d e, effDoc r text = .ok d → L.html d.asText ≠ .error e)
+    (hmsg : ∀ d evs c e, effDoc r text = .ok d → L.html d.asText = .ok evs → specMetaScan evs = some c →
+      L.msg c ≠ .error e) :
+    ∃ i, getEncodingInfoD L r text t = .ok i := by
+  rw [getEncodingInfoD_eq]
+  have hd : ∃ d, effDoc r text = .ok d := by
+    cases text with
+    | some x => exact ⟨x, rfl⟩
+    | none =>
+      cases r with
+      | some rr => exact ⟨_, rfl⟩
+      | none => rcases hgiven with h | h <;> exact absurd rfl h
+  obtain ⟨d, hd⟩ := hd
+  refine getEncodingInfo_total _ _ _ _ ?_ ?_
+  · rcases hgiven with h | h
+    · left; cases text with
+      | none => exact absurd rfl h
+      | some x => simp
+    · right; cases r with
+      | none => exact absurd rfl h
+      | some x => simp
+  · simp only [hd]
+    exact metaRawOf_not_raises L d.asText (fun e => hhtml d e hd) (fun evs c e h1 h2 => hmsg d evs c e hd h1 h2)
+
+/-- non-vacuity: library stages that never raise exist -/
+example : ∃ L : Lib, ∀ x, (∀ e, L.html x ≠ .error e) ∧ ∀ e, L.msg x ≠ .error e :=
+  ⟨⟨fun _ => .ok [], fun c => .ok (c, .none)⟩, fun _ => ⟨fun _ h => (nomatch h), fun _ h => (nomatch h)⟩⟩
+
+/-- the only way out by exception that the module itself has: no document and no response (`None.read()`) -/
+theorem info_raises_without_input (L : Lib) (t : Option Cps) :
+    getEncodingInfoD L none none t = .error .attributeError := rfl
+
+/-- non-vacuity of the class hypotheses of `ascii_head_any_encoding`, and of "`getEncodingInfoD` returns" in the
+theorems above (tests): a `bytes` document through both layers, the meta stage deciding for the first of two metas -/
+example : docClass ((some (⟨some (cps "application/xml"), none, none⟩ : RespD)).map RespD.head) [] ≠ .html ∧
+    docClass ((some (⟨some (cps "application/xml"), none, none⟩ : RespD)).map RespD.head) [] ≠ .text := by decide
+example :
+    (getEncodingInfoD
+      ⟨fun _ => .ok [⟨cps "meta", [(cps "http-equiv", some (cps "Content-Type")), (cps "content", some (cps "text/html;charset=ISO-M"))]⟩,
+                     ⟨cps "meta", [(cps "http-equiv", some (cps "Content-Type")), (cps "content", some (cps "text/html;charset=late"))]⟩],
+       fun c => if c == cps "text/html;charset=iso-m" then .ok (cps "text/html", .str (cps "iso-m")) else .error .extractor⟩
+      (some ⟨some (cps "text/html"), some (cps "ISO-H"), none⟩) (some (.bytes [60, 109, 101, 116, 97, 62])) none).map
+      (fun i => (i.encoding, i.mismatch, i.metaEncoding)) = .ok (some (cps "iso-h"), true, some (cps "iso-m")) := by decide
+
+/-! ## T20.6 — the HTML meta stage: which `<meta>` decides
+
+`metaScan` runs `_MetaHTMLParser.handle_starttag` over the start tags that `html.parser` reports. -/
+
+/-- T20.6 `meta_first_wins`: what `getMetaInfo` uses of `p.content_type` is the `content` (lower-cased) of the FIRST
+start tag that is a `<meta>` whose `http-equiv` — of the last attribute of that name, stripped, lower-cased — is
+`content-type` and whose `content` is not empty; nothing if there is no such tag. For every sequence of start tags. -/
+theorem meta_first_wins (evs : List StartTag) : used (metaScan evs) = specMetaScan evs := used_metaScan evs
+
+/-- later `<meta>` elements play no role, earlier ones that do not decide neither -/
+theorem meta_later_ignored (pre post : List StartTag) (e : StartTag) (hd : decides e = true)
+    (hpre : ∀ x ∈ pre, decides x = false) : used (metaScan (pre ++ e :: post)) = metaContent e := by
+  rw [used_metaScan, specMetaScan, List.find?_append]
+  have : pre.find? decides = none := by
+    rw [List.find?_eq_none]; intro x hx; simp [hpre x hx]
+  simp [this, List.find?_cons, hd]
+
+/-- no Content-Type meta is used iff no start tag decides -/
+theorem meta_absent_iff (evs : List StartTag) : used (metaScan evs) = none ↔ ∀ e ∈ evs, decides e = false := by
+  rw [used_metaScan, specMetaScan]
+  constructor
+  · intro h e he
+    cases hf : evs.find? decides with
+    | none => rw [List.find?_eq_none] at hf; simpa using hf e he
+    | some x =>
+      have hd := List.find?_some hf
+      simp only [hf, Option.bind_some] at h
+      simp [decides, h, truthy] at hd
+  · intro h
+    have : evs.find? decides = none := by
+      rw [List.find?_eq_none]; intro x hx; simp [h x hx]
+    simp [this]
+
+/-- the whole front of `getMetaInfo`: parser exception → raises; no deciding meta → `(None, None)`; otherwise the
+`Message` parameter parser is asked about the content of the first deciding meta -/
+theorem meta_stage_spec (L : Lib) (text : Cps) :
+    metaRawOf L text =
+      match L.html text with
+      | .error _ => .raises
+      | .ok evs =>
+        match specMetaScan evs with
+        | none => .absent
+        | some c =>
+          match L.msg c with
+          | .error _ => .raises
+          | .ok (mt, p) => .found mt p := metaRawOf_spec L text
+
+/-- end to end: when `getEncodingInfo` returns for a text/html or other text document, `meta_encoding` is the charset
+parameter (lower-cased) that `Message` reports for the content of the first deciding `<meta>` among the start tags that
+`html.parser` reports for the decoded document; for every other class it is `None` (the parser is not even run) -/
+theorem meta_encoding_spec (L : Lib) (r : Option RespD) (text : Option Doc) (t : Option Cps) (i : Info)
+    (h : getEncodingInfoD L r text t = .ok i) :
+    ∃ d, effDoc r text = .ok d ∧
+      i.metaEncoding = (match docClass (r.map RespD.head) d.asText with
+        | .html => metaCharset (metaRawOf L d.asText)
+        | .text => metaCharset (metaRawOf L d.asText)
+        | _ => none) := by
+  rw [getEncodingInfoD_eq] at h
+  obtain ⟨txt, h1, _, _, hM⟩ := sources_spec _ _ _ _ i h
+  cases text with
+  | some d =>
+    simp only [effText, Option.map_some, Except.ok.injEq] at h1; subst h1
+    exact ⟨d, rfl, hM⟩
+  | none =>
+    cases r with
+    | none => simp [effText] at h1
+    | some rr =>
+      obtain ⟨mt, cs, body⟩ := rr
+      refine ⟨body.getD (.text []), rfl, ?_⟩
+      have : txt = (body.getD (.text [])).asText := by
+        cases body <;> (simp [effText, RespD.head] at h1; rw [← h1]; rfl)
+      subst this
+      exact hM
+
+/-- non-vacuity and the shapes the stage has to cope with (tests): a value-less attribute, a second `http-equiv`
+attribute, an empty `content` that lets a later meta decide, upper-case names -/
+example : decides ⟨cps "meta", [(cps "http-equiv", some (cps " Content-Type ")), (cps "content", some (cps "text/html;charset=X"))]⟩ = true := by decide
+example : used (metaScan [⟨cps "meta", [(cps "charset", none)]⟩,
+    ⟨cps "meta", [(cps "http-equiv", some (cps "content-type")), (cps "content", some [])]⟩,
+    ⟨cps "meta", [(cps "HTTP-EQUIV", some (cps "refresh")), (cps "http-equiv", some (cps "Content-Type")), (cps "content", some (cps "A"))]⟩,
+    ⟨cps "meta", [(cps "http-equiv", some (cps "content-type")), (cps "content", some (cps "B"))]⟩]) = some (cps "a") := by decide
 
 /-- consequence of C20-xml-short at the level of `getEncodingInfo`: an application/xml response without charset and
 a document of three characters is reported as "no encoding" where the documented rule says UTF-8 (test, not theorem) -/
